@@ -251,6 +251,55 @@ def oracle(cases, impl):
     return fails, hist, nontrivial
 
 
+def shrink_case(ctx, cid, c, budget=120):
+    """Delta debugging on the op list of a failing bare-node case (kind A): drop chunks of ops while the direct
+    oracle still fails on the REAL code.  Declarations (W) and source dumps (Q) are kept."""
+    if c[0] != "A":
+        return c
+    binp = os.path.join(vlib.BIN, "sync")
+    d = os.path.join(ctx.run_dir, "shrink")
+    os.makedirs(d, exist_ok=True)
+    ops = c[3].split()
+    fixed = [o for o in ops if o[0] in "WQ"]
+    body = [o for o in ops if o[0] not in "WQ"]
+
+    def fails(b):
+        w = [o for o in fixed if o[0] == "W"]
+        q = [o for o in fixed if o[0] == "Q"]
+        cand = [c[0], c[1], c[2], " ".join(w + b + q)]
+        with open(os.path.join(d, "cand.tsv"), "w") as f:
+            f.write("\t".join(["s"] + cand) + "\n")
+        rc, out, _ = sh("%s -replay cand.tsv -out ." % binp, cwd=d, timeout=120)
+        if rc != 0:
+            return False
+        files = ("cases_m0.tsv", "impl_m0.out") if c[2] == "m0" else ("cases.tsv", "impl.out")
+        impl, _ = vlib.read_out(os.path.join(d, files[1]))
+        if c[2] == "m0":
+            return bool(oracle_m0({"s": cand}, impl))
+        fs, _ = oracle_case("s", cand, impl.get("s"))
+        return bool(fs)
+
+    n, runs = 2, 0
+    while len(body) >= 2 and runs < budget:
+        chunk = max(1, len(body) // n)
+        reduced = False
+        for i in range(0, len(body), chunk):
+            cand = body[:i] + body[i + chunk:]
+            runs += 1
+            if cand and fails(cand):
+                body, n, reduced = cand, max(n - 1, 2), True
+                break
+            if runs >= budget:
+                break
+        if not reduced:
+            if chunk == 1:
+                break
+            n = min(n * 2, len(body))
+    w = [o for o in fixed if o[0] == "W"]
+    q = [o for o in fixed if o[0] == "Q"]
+    return [c[0], c[1], c[2], " ".join(w + body + q)]
+
+
 def run_impl(ctx, seed, n, sub, replay_file=None, engines="mem", nb=0, ne=0):
     d = os.path.join(ctx.run_dir, sub)
     shutil.rmtree(d, ignore_errors=True)
@@ -361,6 +410,17 @@ def run(ctx):
         fails, _, _ = oracle(cases, impl)
         return fails
 
+    # shrink the first failing bare-node cases (the shrunk schedule is what the replay file carries)
+    if not ctx.replay:
+        for f in all_fail[:3]:
+            try:
+                line = f["case"]["cases_tsv"][0].split("\t")
+                small = shrink_case(ctx, line[0], line[1:])
+                if small != line[1:]:
+                    f["case"]["original_cases_tsv"] = f["case"]["cases_tsv"]
+                    f["case"]["cases_tsv"] = ["\t".join([line[0]] + small)]
+            except Exception as ex:      # shrinking is a convenience, never a verdict
+                ctx.notes.append("shrinking failed: %r" % (ex,))
     vlib.standard_verdict(ctx, proofs_ok, all_mism, all_fail, search_fn=search,
                           corr_name="Sync/Model.v vs node.ProposeRawAsyncFromSyncer / KVNode.applyEntries+applyEntry / "
                                     "isAlreadyApplied / postprocessRemoteApply / GetSnapshot / RestoreFromSnapshot")
